@@ -20,6 +20,7 @@ def storeCore (rcode : Int) (hasRr : Bool) (mm maximumTtl : Int) : Int :=
 
 theorem id_pure_int (x : Int) : (pure x : Id Int) = x := rfl
 theorem id_pure_bool (x : Bool) : (pure x : Id Bool) = x := rfl
+theorem id_pure_any {α : Type} (x : α) : (pure x : Id α) = x := rfl
 
 /-- the mechanical translation of the Go statements computes `storeCore` -/
 theorem Store_ttl_core (rcode : Int) (hasRr : Bool) (mm maximumTtl : Int) :
@@ -99,5 +100,56 @@ theorem c08_negativeResp_translated (rcode : Nat) : negativeResp rcode = Transla
 theorem c08_redisTtlTooShort_translated (ttlMs : Int) :
     RedisCache.redisTtlTooShort ttlMs = Translated.c08_redisTtlTooShort ttlMs := by
   unfold RedisCache.redisTtlTooShort Translated.c08_redisTtlTooShort; grind
+
+/-! ### internal/dnsutils/msg_ttl.go: one iteration of each loop (uint32 arithmetic) -/
+
+/-- ★ tie: the body of GetMinimalTTL's inner loop (`if hdr.Type == TypeOPT { continue }; hasRecord = true;
+    if ttl := hdr.TTL; ttl < minTTL { minTTL = ttl }`) as a function of (minTTL, hasRecord) IS `minStep`, on both
+    variables, for every record and every uint32 accumulator. -/
+theorem c08_minStep_translated (acc : UInt32 × Bool) (rr : RR) :
+    (minStep acc rr).1.toNat = Translated.c08_minStep_min rr.typ rr.ttl.toNat acc.1.toNat acc.2 ∧
+    (minStep acc rr).2 = Translated.c08_minStep_has rr.typ rr.ttl.toNat acc.1.toNat acc.2 := by
+  unfold minStep Translated.c08_minStep_min Translated.c08_minStep_has
+  simp only [Id.run, id_pure_any, typeOPT, GT.gt, UInt32.lt_iff_toNat_lt]
+  by_cases h : rr.typ = 41
+  · simp [h]
+  · by_cases h2 : rr.ttl.toNat < acc.1.toNat <;> simp [h, h2] <;> omega
+
+/-- ★ tie: the body of SubtractTTL's inner loop IS `subRR`. The model subtracts in `UInt32` (wraps exactly as Go's
+    `hdr.TTL -= delta`), the translation in ℕ (truncated): they agree for ALL uint32 values because the subtraction
+    is guarded by `hdr.TTL > delta` — drop or weaken the guard in the source and this theorem fails (D41/D42's family:
+    a wrapped TTL). The type `UInt32` is the range hypothesis. -/
+theorem c08_subRR_translated (d : UInt32) (rr : RR) :
+    (subRR d rr).ttl.toNat = Translated.c08_subRR_ttl rr.typ rr.ttl.toNat d.toNat ∧ (subRR d rr).typ = rr.typ := by
+  unfold subRR Translated.c08_subRR_ttl
+  simp only [Id.run, id_pure_any, typeOPT, GT.gt, UInt32.lt_iff_toNat_lt]
+  by_cases h : rr.typ = 41
+  · simp [h]
+  · by_cases h2 : d.toNat < rr.ttl.toNat
+    · have : d ≤ rr.ttl := by rw [UInt32.le_iff_toNat_le]; omega
+      simp [h, h2, UInt32.toNat_sub_of_le _ _ this] <;> omega
+    · simp [h, h2] <;> omega
+
+/-! ### instants: `expireTime := now.Add(ttl)`, `time.Until(expireTime)`, AsyncStore's `ttlMs`
+
+  Translated with the translator's arithmetic reading of time.Time / time.Duration (spec option `time`): instants
+  and durations are integer nanoseconds, ℤ arithmetic. Go's Until/Sub saturate and Add wraps at ±2⁶³ ns (≈ 292
+  years); lifetimes are at most ten years (`C08.lifetime_le_ten_years`), far inside. -/
+
+/-- ★ tie: the expire time handed to the backends -/
+theorem c08_expireAt_translated (now ttl : Int) : expireAt now ttl = Translated.c08_expireAt now ttl := by
+  unfold expireAt Translated.c08_expireAt
+  simp only [Id.run, id_pure_any] <;> omega
+
+/-- ★ tie: MemoryCache.Store's relative ttl `time.Until(expireTime)` -/
+theorem c08_memUntil_translated (expire now : Int) : timeUntil expire now = Translated.c08_memUntil expire now := by
+  unfold timeUntil Translated.c08_memUntil
+  simp only [Id.run, id_pure_any] <;> omega
+
+/-- ★ tie: AsyncStore's `ttlMs := time.Until(expireTime).Milliseconds()` (division truncating toward zero) -/
+theorem c08_redisTtlMs_translated (expire now : Int) :
+    RedisCache.redisTtlMs expire now = Translated.c08_redisTtlMs expire now := by
+  unfold RedisCache.redisTtlMs timeUntil Translated.c08_redisTtlMs
+  simp only [Id.run, id_pure_any]
 
 end MosVerif.Ttl
